@@ -154,16 +154,31 @@ func (r *Replica) Apply(block *cmttypes.Block, seenCommit *cmttypes.Commit) *Blo
 		return &BlockResult{Err: err}
 	}
 	blockID := cmttypes.BlockID{Hash: block.Hash(), PartSetHeader: parts.Header()}
+	if r.crashPoint != nil {
+		r.crashPoint("cmt.beforeSaveBlock")
+	}
 	if r.blockStore.Height() < block.Height {
 		r.blockStore.SaveBlock(block, parts, seenCommit)
+	}
+	if r.crashPoint != nil {
+		r.crashPoint("cmt.afterSaveBlock")
 	}
 	st, err := r.exec.ApplyBlock(r.State, blockID, block)
 	if err != nil {
 		return &BlockResult{Err: err}
 	}
 	r.State = st
-	res := &BlockResult{AppHash: append([]byte{}, st.AppHash...)}
-	resp, err := r.stateStore.LoadABCIResponses(block.Height)
+	if r.crashPoint != nil {
+		r.crashPoint("cmt.afterApplyBlock")
+	}
+	return r.resultAt(block.Height, st.AppHash)
+}
+
+// resultAt builds the block result of a height from the ABCI responses in the replica's state
+// store (appHash = application hash after that height).
+func (r *Replica) resultAt(height int64, appHash []byte) *BlockResult {
+	res := &BlockResult{AppHash: append([]byte{}, appHash...)}
+	resp, err := r.stateStore.LoadABCIResponses(height)
 	if err != nil {
 		res.Err = fmt.Errorf("load abci responses: %w", err)
 		return res
